@@ -722,6 +722,41 @@ impl Array {
     }
 }
 
+/// Read-only probes of the differentiation state, for external verification harnesses.
+#[cfg(feature = "verif")]
+impl Array {
+    /// Returns the consumer count, whether a delta is pending, the tracking flag, the keep-gradient flag,
+    /// the number of stored children, and the owner counts of the values, and of the children.
+    pub fn verif_probe(&self) -> (usize, bool, bool, bool, usize, usize, usize) {
+        let delta = self.delta.take();
+        let is_pending = delta.is_some();
+        self.delta.set(delta);
+
+        (
+            self.consumer_count.get(),
+            is_pending,
+            self.is_tracked.get(),
+            self.keep_gradient.get(),
+            self.children.len(),
+            Rc::strong_count(&self.values),
+            Rc::strong_count(&self.children),
+        )
+    }
+
+    /// Returns the stored child at the index, if any.
+    pub fn verif_kid(&self, index: usize) -> Option<&Array> {
+        self.children.get(index)
+    }
+
+    /// Returns whether both arrays share the values buffer, and whether they share the node state.
+    pub fn verif_same(&self, other: &Array) -> (bool, bool) {
+        (
+            Rc::ptr_eq(&self.values, &other.values),
+            Rc::ptr_eq(&self.gradient, &other.gradient),
+        )
+    }
+}
+
 impl Clone for Array {
     fn clone(&self) -> Array {
         let backward_op = self.backward_op.as_ref().map(|x| Rc::clone(x));
